@@ -70,7 +70,12 @@ func vfNodeIO(cfg vfIOCfg) {
 		defer os.RemoveAll(dir)
 	}
 	attempts := 1 + vfChoice("attempts", cfg.maxAttempts)
+	// the last attempt succeeds, or every attempt fails and the step ends failed ("any final state")
+	finalFails := vfChoice("finalOutcome", 2) == 1
 	vfIOAttempt, vfIOFails = 0, attempts-1
+	if finalFails {
+		vfIOFails = attempts
+	}
 	vfIOStdout, vfIOStderr = nil, nil
 	for i := 0; i < attempts; i++ {
 		vfIOStdout = append(vfIOStdout, vfString("stdout", cfg.chunkLen))
@@ -88,7 +93,7 @@ func vfNodeIO(cfg vfIOCfg) {
 		step.Stderr = dir + "/err.txt"
 	}
 	if hasOutput {
-		step.Output = "VF_OUT"
+		step.Output = "VFCAPTURED"
 	}
 	lg := vfQuietLogger()
 	g, err := NewExecutionGraph(lg, step)
@@ -107,7 +112,13 @@ func vfNodeIO(cfg vfIOCfg) {
 
 	nd := g.nodes[0]
 	last := attempts - 1
-	vfAssert(nd.data.State.Status == NodeStatusSuccess, "C12.run/step-finished")
+	if finalFails {
+		vfAssert(nd.data.State.Status == NodeStatusError, "C12.run/step-ends-failed-when-every-attempt-fails")
+		vfClass("step-ended-failed")
+	} else {
+		vfAssert(nd.data.State.Status == NodeStatusSuccess, "C12.run/step-finished")
+	}
+	vfAssert(vfIOAttempt == attempts, "C12.run/every-attempt-was-made")
 	logPath := nd.data.State.Log
 	logText, ok := vfFileText(logPath)
 	vfAssert(ok, "C12.bytes/log-file-named-in-status-exists")
@@ -127,10 +138,10 @@ func vfNodeIO(cfg vfIOCfg) {
 	}
 	if hasOutput {
 		want := strings.TrimSpace(vfIOStdout[last])
-		vfAssert(os.Getenv("VF_OUT") == want, "C11.out/captured-output-is-trimmed-stdout-in-environment")
-		v, ok := nd.data.Step.OutputVariables.Load("VF_OUT")
+		vfAssert(os.Getenv("VFCAPTURED") == want, "C11.out/captured-output-is-trimmed-stdout-in-environment")
+		v, ok := nd.data.Step.OutputVariables.Load("VFCAPTURED")
 		vs, _ := v.(string)
-		vfAssert(ok && vs == "VF_OUT="+want, "C11.out/captured-output-is-shared-with-later-steps")
+		vfAssert(ok && vs == "VFCAPTURED="+want, "C11.out/captured-output-is-shared-with-later-steps")
 	}
 	_ = syscall.SIGTERM
 	vfReach("end")
